@@ -7,12 +7,15 @@ Driver for C14.
      mode  D = calls on `StreamJoinNode` directly, M = calls through `StreamJoinManager`
      durMs = window duration in milliseconds (the node uses `as_secs()` of it)
      cond  0 = always true, 1 = left.v < right.v, 2 = left.v != right.v, 3 = left.ts <= right.ts
-     op    `L<id>:<ts>:<key|->:<v>` `R…` `X…` (event on the left / right / an unrelated stream)
+     op    `L<id>:<ts>:<key|->:<v>[:<decoy>]` `R…` `X…` (event on the left / right / an unrelated stream; `key` is the
+           result of the event's OWN side's key extractor; the optional decoy is a value the harness stores under the field
+           only the other side's extractor reads — the model ignores it)
            `Wl<int>` `Wr<int>` `Wx<int>` (watermark; the letter is the stream named in manager mode)
   obs  := `nocalls` | call;call;…   call := `-` | `lid:rid,lid:rid,…` (sorted)
   multi-join manager case := `J <join+join+...> <op,op,...>`
      join  `<l><r>:<durMs>:<cond>`   l, r = stream letters a..e (l ≠ r); registration order = list order
-     op    `A<id>:<ts>:<key|->:<v>` .. `E…` (event whose source is stream a..e), `Wa<int>` .. `We<int>`
+     op    `A<id>:<ts>:<key|->:<v>` .. `E…` (event whose source is stream a..e), `Wa<int>` .. `We<int>`,
+           `U<i>` unregister_join(j<i>), `G<i>` register_join(j<i>, fresh node) — alternating per join, starting registered
   obs  := `nocalls` | call;call;…   call := batch/batch/… (one per registered join, registration order)
   drv_c14 model  : case       ↦ obs predicted by the model
   drv_c14 oracle : case | obs ↦ `ok <tags>` / `fail <clause>@<call>`
@@ -34,7 +37,16 @@ def parseEv (s : String) : Option Ev :=
     let k ← if k = "-" then some none else k.toNat?.map some
     let v ← v.toInt?
     pure { id := i, ts := t, key := k, v := v }
+  | [i, t, k, v, d] => do
+    let i ← i.toNat?
+    let t ← t.toNat?
+    let k ← if k = "-" then some none else k.toNat?.map some
+    let v ← v.toInt?
+    let _ ← d.toNat?      -- decoy under the other side's key field: not part of what the join may look at
+    pure { id := i, ts := t, key := k, v := v }
   | _ => none
+
+def hasDecoy (s : String) : Bool := (s.splitOn ":").length == 5
 
 def parseSrc (c : Char) : Option Src :=
   if c = 'l' then some .left else if c = 'r' then some .right else if c = 'x' then some .other else none
@@ -54,6 +66,7 @@ structure Case where
   P : Params
   cond : Nat
   ops : List MOp
+  decoys : Nat := 0
 
 def parseCase (line : String) : Option Case :=
   match tokens line with
@@ -61,8 +74,10 @@ def parseCase (line : String) : Option Case :=
     let mgr ← if m = "M" then some true else if m = "D" then some false else none
     let d ← d.toNat?
     let c ← c.toNat?
+    let toks := ops
     let ops ← if ops = "-" then some [] else (ops.splitOn ",").mapM parseMOp
-    pure { mgr := mgr, P := { W := windowSecs d, cond := condOf c }, cond := c, ops := ops }
+    pure { mgr := mgr, P := { W := windowSecs d, cond := condOf c }, cond := c, ops := ops,
+           decoys := ((toks.splitOn ",").filter hasDecoy).length }
   | _ => none
 
 /-- direct mode: a watermark call reaches the node whatever stream letter it carries -/
@@ -98,6 +113,8 @@ structure JCase where
   js : List JoinDef
   conds : List Nat
   ms : List JOp
+  cs : List COp := []       -- the same history with its control calls (`ms` = the routed calls only)
+  ctl : Bool := false
 
 def streamOf (c : Char) : Option Nat :=
   if 'a' ≤ c ∧ c ≤ 'e' then some (c.toNat - 'a'.toNat)
@@ -129,12 +146,29 @@ def parseJOp (s : String) : Option JOp :=
     pure (.ev st e)
   else none
 
+def parseCOp (s : String) : Option COp :=
+  if s.startsWith "U" then (s.drop 1).toString.toNat?.map .unreg
+  else if s.startsWith "G" then (s.drop 1).toString.toNat?.map .reg
+  else if hasDecoy s then none
+  else (parseJOp s).map .op
+
+def jopOf : COp → Option JOp
+  | .op m => some m
+  | _ => none
+
+def isCtl : COp → Bool
+  | .op _ => false
+  | _ => true
+
 def parseJCase (line : String) : Option JCase :=
   match tokens line with
   | ["J", joins, ops] => do
     let jc ← (joins.splitOn "+").mapM parseJoin
-    let ms ← if ops = "-" then some [] else (ops.splitOn ",").mapM parseJOp
-    pure { js := jc.map (·.1), conds := jc.map (·.2), ms := ms }
+    let cs ← if ops = "-" then some [] else (ops.splitOn ",").mapM parseCOp
+    let n := jc.length
+    if !cs.all (fun c => match c with | .op _ => true | .unreg i => decide (i < n) | .reg i => decide (i < n)) then none
+    if !(List.range n).all (fun i => ctlValid i true cs) then none
+    pure { js := jc.map (·.1), conds := jc.map (·.2), ms := cs.filterMap jopOf, cs := cs, ctl := cs.any isCtl }
   | _ => none
 
 def showRow (row : List (List (Nat × Nat))) : String := "/".intercalate (row.map showCall)
@@ -150,7 +184,7 @@ def isJ (line : String) : Bool := (tokens line).head? == some "J"
 def modelLine (line : String) : String :=
   if isJ line then
     match parseJCase line with
-    | some c => showJObs (multiObsTrace c.js c.ms)
+    | some c => showJObs (if c.ctl then multiObsTraceC c.js c.cs else multiObsTrace c.js c.ms)
     | none => "bad-case"
   else
   match parseCase line with
@@ -190,6 +224,7 @@ def tagsOf (c : Case) (ops : List Op) (obs : List (List (Nat × Nat))) : List St
   ++ (if noPartnerEvicted P ops then ["safe"] else ["partner-evicted"])
   ++ (if (wms ops).isEmpty then [] else ["wm"])
   ++ (if evs.any (·.key.isNone) then ["keyless"] else [])
+  ++ (if c.decoys > 0 then ["decoy-key-field"] else [])
   ++ [s!"keys{keys.length}"]
   ++ [s!"cond{c.cond}"]
   ++ (if cross.any (fun p => sameKey p.1 p.2 && closeEnough P.W p.1 p.2 && !P.cond p.1 p.2) then ["cond-filtered"] else [])
@@ -245,10 +280,75 @@ def jTags (c : JCase) (obs : List (List (List (Nat × Nat)))) : List String :=
   ++ (c.conds.eraseDups.map (fun k => s!"cond{k}"))
   ++ (if n > 0 then ["nontrivial"] else [])
 
+/-- why one life of a join is not fine (`none`: it is) -/
+def badLife (j : JoinDef) (so : List JOp) (sb : List (List (Nat × Nat))) : Option String :=
+  let rt := routeJ j.l j.r
+  let ms := so.reverse
+  let col := sb.reverse
+  if mgrOkG rt j.P ms col then none
+  else if !unroutedSilentG rt ms col then some "unrouted-call-emitted@0"
+  else some (firstBad j.P (ms.filterMap rt) (routedObsG rt ms col))
+
+/-- `livesOk` with the name of the first failing clause -/
+def livesBad (i : Nat) (j : JoinDef) :
+    Bool → List JOp → List (List (Nat × Nat)) → List COp → List (List (Nat × Nat)) → Option String
+  | reg, so, sb, [], [] => if reg then badLife j so sb else none
+  | reg, so, sb, .op m :: cs, o :: os =>
+    if reg then livesBad i j true (m :: so) (o :: sb) cs os
+    else if !o.isEmpty then some "unregistered-join-emitted@0" else livesBad i j false [] [] cs os
+  | reg, so, sb, .unreg k :: cs, o :: os =>
+    if !o.isEmpty then some "control-call-emitted@0"
+    else if k = i then
+      match (if reg then badLife j so sb else none) with
+      | some e => some e
+      | none => livesBad i j false [] [] cs os
+    else livesBad i j reg so sb cs os
+  | reg, so, sb, .reg k :: cs, o :: os =>
+    if !o.isEmpty then some "control-call-emitted@0"
+    else if k = i then livesBad i j true [] [] cs os else livesBad i j reg so sb cs os
+  | _, _, _, _, _ => some "calls"
+
+def firstBadC : Nat → List JoinDef → List COp → List (List (List (Nat × Nat))) → String
+  | i, [], cs, obs =>
+    if obs.length != cs.length then "calls" else if obs.all (·.isEmpty) then "multiOkC" else s!"extra-batch@0#j{i}"
+  | i, j :: js, cs, obs =>
+    match heads obs with
+    | none => s!"missing-batch@0#j{i}"
+    | some col =>
+      match livesBad i j true [] [] cs col with
+      | some e => s!"{e}#j{i}"
+      | none => firstBadC (i + 1) js cs (tails obs)
+
+def cTags (c : JCase) (obs : List (List (List (Nat × Nat)))) : List String :=
+  let n := (obs.map List.flatten).flatten.length
+  let idx := List.range c.js.length
+  let nreg := (c.cs.filter (fun x => match x with | .reg _ => true | _ => false)).length
+  let atStart := match c.cs with | x :: _ => isCtl x | [] => false
+  let mid := ((c.cs.dropWhile isCtl).any isCtl)
+  let gone := idx.any (fun i => (c.cs.filter (fun x => x == .unreg i)).length > (c.cs.filter (fun x => x == .reg i)).length)
+  let touched := (idx.filter (fun i => c.cs.any (fun x => x == .unreg i))).length
+  let hasWm := c.ms.any (fun m => match m with | .wm _ _ => true | _ => false)
+  -- pairs delivered to a join after it was registered again
+  let after := idx.any (fun i =>
+    let k := (c.cs.zip (colOf i obs)).dropWhile (fun x => x.1 != .reg i)
+    !(k.map (·.2)).flatten.isEmpty)
+  ["multi", "unregister-register", s!"joins{c.js.length}", s!"joins-touched{touched}"]
+  ++ [if n = 0 then "pairs0" else if n ≤ 2 then "pairs1-2" else "pairs3+"]
+  ++ (if nreg = 0 then [] else if nreg = 1 then ["registered-again1"] else ["registered-again2+"])
+  ++ (if atStart then ["ctl-before-first-event"] else [])
+  ++ (if mid then ["ctl-mid-run"] else [])
+  ++ (if gone then ["gone-for-good"] else [])
+  ++ (if after then ["pairs-after-registering-again"] else [])
+  ++ (if hasWm then ["wm"] else [])
+  ++ (c.conds.eraseDups.map (fun k => s!"cond{k}"))
+  ++ (if n > 0 then ["nontrivial"] else [])
+
 def oracleJ (cs o : String) : String :=
   match parseJCase cs, parseJObs o.trimAscii.toString with
   | some c, some obs =>
     if !c.js.all (fun j => decide (WF (joinOps j c.ms))) then "bad-case-ids"
+    else if c.ctl then
+      (if multiOkC 0 c.js c.cs obs then joinSp ("ok" :: cTags c obs) else s!"fail {firstBadC 0 c.js c.cs obs}")
     else if multiOk c.js c.ms obs then joinSp ("ok" :: jTags c obs)
     else s!"fail {firstBadJ 0 c.js c.ms obs}"
   | _, _ => "bad-input"
